@@ -331,7 +331,46 @@ fn malformed_fragment(u: &mut U, x: &Big) -> (String, &'static str) {
             };
             (format!("\"{}{body}\"", if hex { "0x" } else { "" }), if hex { "char-sweep-hex" } else { "char-sweep-dec" })
         }
+        32 => {
+            // a decimal string with an exponent whose value is 2^256 or more: whatever a tool makes of exponent
+            // notation inside strings, this one is not below 2^256
+            let m = ["1", "2", "7", "12", "1.5", "115792089237316195423570985008687907853269984665640564039457584007913129639936"][u.below(6)];
+            let k = ["78", "79", "100", "255", "256", "300", "1000", "4294967295", "4294967296", "18446744073709551616"][u.below(10)];
+            (format!("\"{m}{}{k}\"", ["e", "E", "e+"][u.below(3)]), "exponent-string-overflow")
+        }
+        33 => {
+            // an amount with a unit suffix (cast / Brownie style) worth 2^256 wei or more
+            const UNITS: [(&str, usize); 8] = [("wei", 0), ("kwei", 3), ("mwei", 6), ("gwei", 9), ("szabo", 12), ("finney", 15), ("ether", 18), ("eth", 18)];
+            let (unit, d) = UNITS[u.below(UNITS.len())];
+            // smallest q with q * 10^d >= 2^256, plus a little
+            let mut q = Big::pow2(256);
+            for _ in 0..d {
+                q = q.divrem_small(10).0;
+            }
+            let q = q.add_small(1 + u.below(1000) as u32);
+            (format!("\"{}{}{unit}\"", q.to_dec(), if u.bool() { " " } else { "" }), "unit-suffix-overflow")
+        }
         _ => (format!("\"-{xs}\""), "negative-dec-string"),
+    }
+}
+
+/// Notations the property does not list (an exponent inside a decimal string, an amount with a unit suffix) with
+/// a value below 2^256: exact if accepted, refusal allowed. Returns (fragment, label, value).
+fn foreign_notation(u: &mut U) -> (String, &'static str, Big) {
+    let pow10 = |k: usize| Big::from_dec(&format!("1{}", "0".repeat(k))).expect("decimal");
+    if u.bool() {
+        let k = [0usize, 1, 9, 18, 19, 30, 60, 76, 77][u.below(9)];
+        let m = [1u32, 2, 9, 11, 115][u.below(5)];
+        let x = pow10(k).mul_small(m);
+        let x = if x.fits_256() { x } else { pow10(18) };
+        let (m, k) = if x.fits_256() && x == pow10(k).mul_small(m) { (m, k) } else { (1, 18) };
+        (format!("\"{m}{}{k}\"", ["e", "E", "e+"][u.below(3)]), "exponent-string-exact", x)
+    } else {
+        const UNITS: [(&str, usize); 8] = [("wei", 0), ("kwei", 3), ("mwei", 6), ("gwei", 9), ("szabo", 12), ("finney", 15), ("ether", 18), ("eth", 18)];
+        let (unit, d) = UNITS[u.below(UNITS.len())];
+        let q = [1u32, 2, 20, 1337, 1_000_000][u.below(5)];
+        let x = pow10(d).mul_small(q);
+        (format!("\"{q}{}{unit}\"", if u.bool() { " " } else { "" }), "unit-suffix-exact", x)
     }
 }
 
@@ -439,6 +478,11 @@ fn gen_case(tape: Vec<u8>) -> Case {
             let (f, l) = literal_fragment(&mut u);
             (f, "literal", l.to_string())
         }
+        _ if u.ratio(1, 3) => {
+            let (f, l, v) = foreign_notation(&mut u);
+            x = v;
+            (f, "lenient", l.to_string())
+        }
         _ => {
             let (f, l) = unspecified_fragment(&mut u, &x);
             (f, "unspecified", l.to_string())
@@ -460,6 +504,25 @@ fn gen_case(tape: Vec<u8>) -> Case {
         }
     }
     Case { doc, model, field: field.to_string(), fragment, class: class.to_string(), label }
+}
+
+/// A fee-market member whose value is null (or not a number) while the other one is absent, next to everything
+/// a legacy / EIP-2930 reading needs: the member is there, so the document is a fee-market transaction with a
+/// value that is not a number - refused, not signed as another kind with the member dropped.
+fn gen_null_fee_case(tape: Vec<u8>) -> Case {
+    let mut u = U::new(&tape);
+    let shape = [Shape::Eip2930, Shape::LegacyChain, Shape::LegacyNoChain][u.below(3)];
+    let (model, to_form) = txgen::gen_model(&mut u, shape, 40);
+    let mut doc = txgen::render_with(&model, shape, &to_form, &mut u, &mut |_, x, u| txgen::plain_number(x, u)).render();
+    let field = ["maxFeePerGas", "maxPriorityFeePerGas"][u.below(2)];
+    let fragment = ["null", "null", "null", "\"\"", "false", "[]", "{}"][u.below(7)];
+    let both = u.ratio(1, 3);
+    if let Some(i) = doc.find('{') {
+        let other = if field == "maxFeePerGas" { "maxPriorityFeePerGas" } else { "maxFeePerGas" };
+        let extra = if both { format!("\"{field}\":{fragment},\"{other}\":null,") } else { format!("\"{field}\":{fragment},") };
+        doc.insert_str(i + 1, &extra);
+    }
+    Case { doc, model, field: field.to_string(), fragment: fragment.to_string(), class: "malformed".into(), label: format!("fee-member-not-a-number{}+other-kind-complete", if both { "-both" } else { "" }) }
 }
 
 // ------------------------------------------------------------- byte fields and addresses
@@ -570,6 +633,7 @@ fn gen_bytes_case(tape: Vec<u8>) -> BytesCase {
         13 => ("to", [J::Num("0".into()), J::Arr(vec![]), J::Bool(false), J::Str(String::new())][u.below(4)].clone(), "to-wrong-kind", Some(false)),
         14 => ("data", J::Str(format!("0x0x{data_hex}")), "data-doubled-prefix", Some(false)),
         15 => ("to", J::Str(format!("0x0x{to_hex}")), "to-doubled-prefix", Some(false)),
+        16 if u.bool() => ("to", J::Str(["0x", "", "0x0", "0x00", " ", "0x "][u.below(6)].to_string()), "to-empty-or-too-short", Some(false)),
         16 => ("data", J::Str(format!("0x+{data_hex}")), "data-plus-after-prefix", Some(false)),
         k => {
             let (a, slots) = model.access_list[0].clone();
@@ -642,6 +706,7 @@ pub fn run(ctx: &mut Ctx) {
     ctx.replay_known_and_regressions(&replay);
     let n = ctx.tier.pick(300_000, 5_000_000);
     ctx.run_prop("numbers", n, || crate::gen::tape(400).prop_map(gen_case), judge);
+    ctx.run_prop("numbers", ctx.tier.pick(6000, 100_000), || crate::gen::tape(400).prop_map(gen_null_fee_case), judge);
     ctx.run_prop("bytes", ctx.tier.pick(50_000, 500_000), || crate::gen::tape(400).prop_map(gen_bytes_case), judge_bytes);
     if crate::cli::global_cli().is_some() {
         // the same cases through the executable: whatever the command does with the document before the
